@@ -27,6 +27,7 @@ type TAct struct {
 	HandlerMs int               `json:"handler_ms,omitempty"`
 	SelfClose int               `json:"self_close,omitempty"` // monitor: an API call (CbAct, default Close()) from inside its n-th callback
 	CbAct     string            `json:"cb_act,omitempty"`
+	NoInit    bool              `json:"no_init,omitempty"` // monitor: the handler has no OnInitialize
 	Block     bool              `json:"block,omitempty"`
 	Async     bool              `json:"async,omitempty"`
 }
@@ -293,6 +294,7 @@ func (t *treeRun) act(a TAct) {
 		if a.Node >= 0 && (parent == nil || !parent.IsPublisher()) {
 			return
 		}
+		h.NextMonitorNoInit = a.NoInit && a.Kind == "monitor"
 		n, err := h.MakeNode(parent, a.Kind, a.Filter, a.Reader)
 		if err != nil {
 			// only acceptable when the publisher is (being) shut down
@@ -732,6 +734,23 @@ func (t *treeRun) monitorChecks() {
 		if n.Mon == nil {
 			continue
 		}
+		if n.NoInit {
+			// no OnInitialize registered: every callback is the callback of an
+			// event - in particular none for what was there before the monitor
+			var w *world.NodeRT
+			for _, x := range h.Nodes {
+				if x.Sub != nil && x.Mon == nil && x.Reader == "eager" && x.Parent == nil && !x.Filtered() && !x.Lost() && !x.WeClosed && x.ID < n.ID {
+					w = x
+					break
+				}
+			}
+			if w != nil && !h.Overflowed() && !h.AnyFilteredAncestorOrSelf(n) {
+				if calls := callSigsTree(n.MonLog); !isSubsequence(calls, witnessSigs(w)) {
+					detsim.Fail("monitor-callback-without-event", "%s (handler without OnInitialize): its callbacks %v are not an in-order subsequence of the events the older %s received %v", n.Name(), calls, w.Name(), witnessSigs(w))
+				}
+			}
+			continue
+		}
 		inits := 0
 		for i, c := range n.MonLog {
 			if c.Kind == "init" {
@@ -775,6 +794,14 @@ func (t *treeRun) monitorChecks() {
 			}
 		}
 	}
+}
+
+func witnessSigs(w *world.NodeRT) []string {
+	var out []string
+	for _, e := range w.Events {
+		out = append(out, e.Type+" "+e.Obj.Key()+"@"+e.Obj.RV)
+	}
+	return out
 }
 
 func callSigsTree(calls []world.MonCall) []string {
